@@ -77,9 +77,9 @@ func readTxRecordLoc(v []byte) (*database.BlockLoc, *wire.TxLoc, error) {
 	return blkLoc, txLoc, nil
 }
 
-func existsTxRecord(ns mwdb.Bucket, txHash *wire.Hash, block *BlockMeta) (k, v []byte) {
+func existsTxRecord(ns mwdb.Bucket, txHash *wire.Hash, block *BlockMeta) (k, v []byte, err error) {
 	k = keyTxRecord(txHash, block)
-	v, _ = ns.Get(k)
+	v, err = ns.Get(k)
 	return
 }
 
